@@ -2686,6 +2686,8 @@ where
     where
         K::Scalar: ScalarSummable,
     {
+        let reordered = Self::defer_near_duplicates_of_initial_simplex(vertices);
+        let vertices: &[Vertex<K::Scalar, U, D>] = &reordered;
         if vertices.len() < D + 1 {
             return Err(DelaunayTriangulationConstructionErrorWithStatistics {
                 error: TriangulationConstructionError::InsufficientVertices {
@@ -2798,6 +2800,8 @@ where
     where
         K::Scalar: ScalarSummable,
     {
+        let reordered = Self::defer_near_duplicates_of_initial_simplex(vertices);
+        let vertices: &[Vertex<K::Scalar, U, D>] = &reordered;
         if vertices.len() < D + 1 {
             return Err(TriangulationConstructionError::InsufficientVertices {
                 dimension: D,
@@ -2861,6 +2865,57 @@ where
         )?;
 
         Ok(dt)
+    }
+
+    /// Returns the construction order with near-duplicates moved out of the initial simplex.
+    ///
+    /// The first `D + 1` vertices become the initial simplex directly, so the insertion-time
+    /// duplicate check never sees them: two of them within the duplicate tolerance (1e-10) of
+    /// each other were both committed. Any of the leading vertices that lies within that
+    /// tolerance of an earlier leading vertex is moved behind the simplex; it is then offered to
+    /// the incremental insertion like every other vertex, where it is skipped and counted.
+    fn defer_near_duplicates_of_initial_simplex(
+        vertices: &[Vertex<K::Scalar, U, D>],
+    ) -> Vec<Vertex<K::Scalar, U, D>> {
+        let tolerance: K::Scalar =
+            <K::Scalar as NumCast>::from(1e-10_f64).unwrap_or_else(K::Scalar::default_tolerance);
+        let tolerance_sq = tolerance * tolerance;
+        let mut simplex: Vec<Vertex<K::Scalar, U, D>> = Vec::with_capacity(D + 1);
+        let mut deferred: Vec<Vertex<K::Scalar, U, D>> = Vec::new();
+        let mut consumed = 0usize;
+        for vertex in vertices {
+            if simplex.len() == D + 1 {
+                break;
+            }
+            consumed += 1;
+            let coords = vertex.point().coords();
+            let near_earlier = simplex.iter().any(|kept| {
+                let kept_coords = kept.point().coords();
+                let mut dist_sq = <K::Scalar as num_traits::Zero>::zero();
+                for axis in 0..D {
+                    let diff = coords[axis] - kept_coords[axis];
+                    dist_sq = dist_sq + diff * diff;
+                }
+                dist_sq < tolerance_sq
+            });
+            if near_earlier {
+                deferred.push(*vertex);
+            } else {
+                simplex.push(*vertex);
+            }
+        }
+        if deferred.is_empty() {
+            return vertices.to_vec();
+        }
+        if simplex.len() < D + 1 {
+            // Fewer than D+1 positions farther apart than the tolerance (for instance a whole
+            // input at a scale below it): keep the caller's order and let the orientation test
+            // of the initial simplex decide, as before.
+            return vertices.to_vec();
+        }
+        simplex.extend(deferred);
+        simplex.extend_from_slice(&vertices[consumed..]);
+        simplex
     }
 
     #[allow(clippy::too_many_lines)]
